@@ -22,19 +22,29 @@ Ltac oj_peel :=
    [ rewrite oj_upda | rewrite oj_updt | rewrite oj_setstack | rewrite oj_foldl_notify | rewrite oj_run_job
    | rewrite oj_updq_same by (intros ?; done)
    | lazymatch goal with |- context [oj (set ?fld ?f ?Y) ?q] => change (oj (set fld f Y) q) with (oj Y q) end ].
+Ltac obs_compute Ea Est :=
+  unfold obs'; rewrite Ea; cbv beta iota zeta; rewrite Est; cbv beta iota zeta;
+  repeat match goal with Eq : queues _ !! _ = Some _ |- _ => rewrite Eq; cbv beta iota zeta end.
 Ltac fld_tac := cbn; rewrite ?(proj1 (proj2 (foldl_notify_fields _ _ _))), ?(proj2 (proj2 (foldl_notify_fields _ _ _))); done.
+
+Ltac phase_tac Ea Est :=
+  lazymatch goal with |- veq (view (setstack ?X ?a ?st)) _ =>
+    eapply (sim_phase _ a _ X st Ea);
+    [ asame_tac | intros q'; oj_peel; reflexivity | fld_tac | fld_tac | intros q'; rewrite Est; cbn; repeat case_decide; try done ] end.
 
 Section Sim.
   Context (T : tables) (F : facts) (HT : own_conditions T) (HI : imm_conditions T).
 
-  Lemma step_sim s a s' : Shape s -> Inv s -> step T F s a = Some s' -> astep (view s) a (obs' T s a s') (view s').
+  Lemma step_sim s a s' : Shape s -> Inv s -> WF s -> step T F s a = Some s' -> astep (view s) a (obs' T s a s') (view s').
   Proof.
-    intros HS HIv Hstep. unfold step in Hstep.
+    intros HS HIv HW Hstep. unfold step in Hstep.
     destruct (actors s !! a) as [ac|] eqn:Ea; cbn in Hstep; [|congruence].
     destruct (stack ac) as [|fr rest] eqn:Est; [congruence|].
     pose proof (kind_of s a ac HS Ea) as Hkind. rewrite Est in Hkind.
     pose proof (fun q' => stack_cnt_self s a ac q' Ea) as Hcnt. rewrite Est in Hcnt.
+    pose proof (WF_self s a ac HW Ea) as Hwf. rewrite Est in Hwf. cbn [forallb] in Hwf. apply andb_true_iff in Hwf as [Hfrok _].
     destruct fr.
+    all: cbn [frame_ok] in Hfrok.
     all: cbn beta iota zeta in Hstep.
     all: repeat (first
          [ match type of Hstep with
@@ -44,6 +54,8 @@ Section Sim.
          | match type of Hstep with context [match ?x with _ => _ end] => let E := fresh "E" in destruct x eqn:E end; cbn in Hstep; try congruence ]).
     all: try discriminate.
     all: try (injection Hstep as <-).
+    all: try (lazymatch goal with Eq : queues _ !! _ = Some _ |- _ => fail | _ => idtac end;
+              apply bool_decide_eq_true in Hfrok; destruct (queue_exists s _ Hfrok) as [qq Eq]).
     all: destruct Hkind as [[Hlt Hok]|(t0 & Hat & Hok)];
          [ apply caller_ok_inv in Hok as [(-> & Hfr)|[(os & -> & Hsf)|(g & os & -> & Hpo)]]; try discriminate;
            try (cbn in Hpo; destruct g; try discriminate; try (apply bool_decide_eq_true in Hpo; subst))
@@ -65,7 +77,130 @@ Section Sim.
                  [ apply acts_lookup, Ea | cbn; rewrite Est; reflexivity | try (cbn; first [left; assumption | right; assumption]) ..
                  | apply (sim_phase s a ac X st Ea HX);
                    [ intros q'; oj_peel; reflexivity | fld_tac | fld_tac | intros q'; rewrite Est; cbn; repeat case_decide; try done ] ] end; fail).
-    all: lazymatch goal with Est : stack _ = ?f :: ?r |- _ => idtac f r end.
-    Show 1. Show 4. Show 8. Show 9.
-  Admitted.
+    (* facts about the queue the step touches *)
+    all: try (match goal with Eq : queues _ !! ?q = Some ?qq |- _ => assert (Hoj : oj s q = Some (owner qq, jobs qq)) by (by apply oj_lookup) end).
+    all: try (match goal with Eq : queues _ !! ?q = Some ?qq |- _ => assert (Hown : owner qq = Some a)
+               by (eapply (runner_owns s a q qq 0); [exact HIv| |exact Eq]; rewrite Hcnt; cbn [cnt owns_b]; rewrite bool_decide_true by done; done) end).
+    all: try (match goal with Eq : queues _ !! ?q = Some ?qq |- _ => assert (Hfree : owner qq = None)
+               by (apply (acq_free s q qq HIv Eq);
+                   match goal with
+                   | E : t_sync _ _ _ = (_, SAImmediate) |- _ => exact (proj1 (c_sync T HT _ _ _ _ E))
+                   | E : t_sync _ _ _ = (_, SADrain) |- _ => exact (proj1 (c_sync T HT _ _ _ _ E))
+                   | E : t_trysync _ _ _ = (_, TAImmediate) |- _ => exact (proj1 (c_try T HT _ _ _ _ E))
+                   | E : t_claim _ _ = Some _ |- _ => exact (proj1 (c_claim T HT _ _ E))
+                   | E : t_next _ _ = Some _ |- _ => exact (proj1 (c_next T HT _ _ E))
+                   end) end).
+    (* a new operation starts *)
+    all: lazymatch goal with Est : stack _ = [FTop _] |- _ =>
+           obs_compute Ea Est; cbn [op_q op_kind];
+           eapply (A_call (view s) a _ (aact ac)); [apply acts_lookup, Ea | cbn; rewrite Est; reflexivity | lazymatch goal with |- veq (view (setstack _ _ [?fr; FTop ?l'])) _ => apply (sim_call s a ac fr l' Ea); [intros; by rewrite Est|done] end ]
+         | _ => idtac end.
+    (* the job is appended to the queue *)
+    all: lazymatch goal with
+         | Est : stack _ = FD1 _ :: _, E : t_desync _ _ = (_, ?act), Hoj : oj _ _ = _, Eq : queues _ !! _ = Some _ |- _ =>
+             obs_compute Ea Est; rewrite E; cbn [snd];
+             lazymatch goal with |- astep _ _ _ (view (setstack (updq _ ?q ?g) _ ?st)) =>
+               let d := lazymatch act with DASchedule => constr:(DGoOn) | DANone => constr:(DRet) | DAPanic => constr:(DPanic) end in
+               eapply (A_pushd (view s) a _ (aact ac) q d);
+               [ apply acts_lookup, Ea | cbn; rewrite Est; reflexivity
+               | eapply (sim_push s a ac q g st _ _ _ Ea Hoj); [rewrite oj_updq, decide_True by done; rewrite Eq; reflexivity | intros q'; rewrite Est; reflexivity ] ] end
+         | Est : stack _ = FSDpush _ :: _, Hoj : oj _ _ = _, Eq : queues _ !! _ = Some _ |- _ =>
+             obs_compute Ea Est;
+             lazymatch goal with |- astep _ _ _ (view (setstack (updq _ ?q ?g) _ ?st)) =>
+               eapply (A_pushs (view s) a _ (aact ac) q (JSyncDrain (opctr ac) a));
+               [ apply acts_lookup, Ea | cbn; rewrite Est; reflexivity | left; reflexivity
+               | eapply (sim_push s a ac q g st _ _ _ Ea Hoj); [rewrite oj_updq, decide_True by done; rewrite Eq; reflexivity | intros q'; rewrite Est; reflexivity ] ] end
+         | Est : stack _ = FSBpush _ :: _, Hoj : oj _ _ = _, Eq : queues _ !! _ = Some _ |- _ =>
+             obs_compute Ea Est;
+             lazymatch goal with |- astep _ _ _ (view (setstack (updq _ ?q ?g) _ ?st)) =>
+               eapply (A_pushs (view s) a _ (aact ac) q (JSyncBg (opctr ac) a));
+               [ apply acts_lookup, Ea | cbn; rewrite Est; reflexivity | right; reflexivity
+               | eapply (sim_push s a ac q g st _ _ _ Ea Hoj); [rewrite oj_updq, decide_True by done; rewrite Eq; reflexivity | intros q'; rewrite Est; reflexivity ] ] end
+         | _ => idtac end.
+    (* the call panics or try_sync finds the queue busy *)
+    all: lazymatch goal with
+         | E : t_sync _ _ _ = (_, SAPanic) |- _ =>
+             obs_compute Ea Est; rewrite E; cbn [snd]; eapply (A_panic (view s) a _ (aact ac) KSync);
+             [ apply acts_lookup, Ea | cbn; rewrite Est; reflexivity | phase_tac Ea Est ]
+         | E : t_trysync _ _ _ = (_, TAPanic) |- _ =>
+             obs_compute Ea Est; rewrite E; cbn [snd]; eapply (A_panic (view s) a _ (aact ac) KTry);
+             [ apply acts_lookup, Ea | cbn; rewrite Est; reflexivity | phase_tac Ea Est ]
+         | E : t_sync _ _ _ = (_, SABackground) |- _ =>
+             obs_compute Ea Est; rewrite E; cbn [snd]; apply A_stutter;
+             lazymatch goal with |- veq (view (setstack ?X _ ?st)) _ =>
+               apply (sim_stutter s a ac X st Ea);
+               [ asame_tac | intros q'; oj_peel; reflexivity | fld_tac | fld_tac | rewrite Est; reflexivity
+               | intros q'; rewrite Est; cbn; repeat case_decide; try done ] end
+         | E : t_trysync _ _ _ = (_, TABusy) |- _ =>
+             obs_compute Ea Est; rewrite E; cbn [snd]; eapply (A_busy (view s) a _ (aact ac));
+             [ apply acts_lookup, Ea | cbn; rewrite Est; reflexivity | phase_tac Ea Est ]
+         | _ => idtac end.
+    (* acquiring or releasing the queue, taking the first job: the pending jobs stay the same *)
+    all: lazymatch goal with
+         | E : t_sync _ _ _ = (_, SAImmediate) |- _ => idtac
+         | E : t_trysync _ _ _ = (_, TAImmediate) |- _ => idtac
+         | Hoj : oj _ _ = _, Eq : queues _ !! _ = Some _ |- astep _ _ (obs' _ _ _ (setstack (updq ?X ?q ?g) _ ?st)) _ =>
+             first [ rewrite (obs'_plain T s a ac _ _ _ Ea Est eq_refl);
+                     assert (HX : asame (updq X q g) s) by asame_tac;
+                     rewrite (at_top_setstack _ s a ac st HX Ea); cbv beta iota; clear HX
+                   | obs_compute Ea Est; match goal with E : t_sync _ _ _ = _ |- _ => rewrite E end; cbn [snd] ];
+             apply A_stutter; eapply (sim_q s a ac X q g st _ _ _ _ Ea);
+             [ asame_tac | intros q'; oj_peel; reflexivity | fld_tac | fld_tac | exact Hoj
+             | try solve [rewrite oj_updq, decide_True by done; repeat (rewrite queues_updq, decide_True by done);
+               lazymatch goal with |- context [queues ?Y !! _] => change (queues Y) with (queues s) end; rewrite Eq; cbn; reflexivity]
+             | try solve [rewrite Est; reflexivity]
+             | try solve [intros q' Hne; rewrite Est; cbn; repeat case_decide; try done; congruence]
+             | try solve [first [left; assumption | right; assumption]]
+             | try solve [first [left; reflexivity | right; reflexivity | right; assumption]]
+             | try solve [rewrite ?Hown, ?Hfree, ?Est; try (match goal with E : jobs _ = _ :: _ |- _ => rewrite E end); cbn; rewrite ?decide_True by done; done] ]
+         | _ => idtac end.
+    (* push-and-take of an immediate sync / try_sync *)
+    all: lazymatch goal with
+         | E : t_sync _ _ _ = (_, SAImmediate), Hoj : oj _ _ = _, Eq : queues _ !! _ = Some ?qq |- _ =>
+             obs_compute Ea Est; rewrite E; cbn [snd];
+             assert (Hemp : jobs qq = []) by (eapply bool_decide_eq_true; exact (c_imm_sync T HI _ _ _ E));
+             lazymatch goal with |- astep _ _ _ (view (setstack (updq ?X ?q ?g) _ [_; FTop ?os])) =>
+               eapply (A_imm (view s) a _ (aact ac) KSync q);
+               [ apply acts_lookup, Ea | cbn; rewrite Est; reflexivity | done | cbn; unfold pend; rewrite Hoj, Hfree; exact Hemp
+               | eapply (sim_imm s a ac X q g os Ea);
+                 [ asame_tac | intros q'; oj_peel; reflexivity | fld_tac | fld_tac | rewrite Hoj, Hfree, Hemp; reflexivity
+                 | rewrite oj_updq, decide_True by done; repeat (rewrite queues_updq, decide_True by done); rewrite Eq; cbn; rewrite Hemp; reflexivity
+                 | intros q'; rewrite Est; reflexivity ] ] end
+         | E : t_trysync _ _ _ = (_, TAImmediate), Hoj : oj _ _ = _, Eq : queues _ !! _ = Some ?qq |- _ =>
+             obs_compute Ea Est; rewrite E; cbn [snd];
+             assert (Hemp : jobs qq = []) by (eapply bool_decide_eq_true; exact (c_imm_try T HI _ _ _ E));
+             lazymatch goal with |- astep _ _ _ (view (setstack (updq ?X ?q ?g) _ [_; FTop ?os])) =>
+               eapply (A_imm (view s) a _ (aact ac) KTry q);
+               [ apply acts_lookup, Ea | cbn; rewrite Est; reflexivity | done | cbn; unfold pend; rewrite Hoj, Hfree; exact Hemp
+               | eapply (sim_imm s a ac X q g os Ea);
+                 [ asame_tac | intros q'; oj_peel; reflexivity | fld_tac | fld_tac | rewrite Hoj, Hfree, Hemp; reflexivity
+                 | rewrite oj_updq, decide_True by done; repeat (rewrite queues_updq, decide_True by done); rewrite Eq; cbn; rewrite Hemp; reflexivity
+                 | intros q'; rewrite Est; reflexivity ] ] end
+         | _ => idtac end.
+    (* a closure runs *)
+    all: lazymatch goal with
+         | Est : stack _ = FSIrun ?q :: _, Hoj : oj _ _ = Some (_, jobs ?qq) |- astep _ _ _ (view (setstack ?X _ ?st)) =>
+             obs_compute Ea Est;
+             destruct (sim_unhand s a ac X q st (JPlain (opctr ac)) (jobs qq) (acts s) Ea) as [Hp Hv];
+             [ done | reflexivity | intros; reflexivity | rewrite Hoj, Hown; reflexivity
+             | rewrite Est; cbn; rewrite decide_True by done; done | cbn; done
+             | intros q' Hne; rewrite Est; cbn; repeat case_decide; try done; congruence | ];
+             eapply (A_runimm (view s) a _ (aact ac) q (jobs qq)); [ apply acts_lookup, Ea | cbn; rewrite Est; reflexivity | exact Hp | exact Hv ]
+         | Hoj : oj _ ?q = Some (_, jobs ?qq) |- astep _ _ _ (view (setstack (run_job _ _ ?j) _ ?st)) =>
+             obs_compute Ea Est;
+             destruct (sim_run F s a ac q st j (jobs qq) Ea) as [Hp Hv];
+             [ rewrite Hoj, Hown; reflexivity
+             | rewrite Est; cbn; rewrite decide_True by done; done | cbn; done
+             | intros q' Hne; rewrite Est; cbn; repeat case_decide; try done; congruence | rewrite Est; reflexivity | ];
+             eapply (A_run (view s) a _ q j (jobs qq)); [ exact Hp | exact Hv ]
+         | _ => idtac end.
+    (* a pool thread is spawned *)
+    all: lazymatch goal with
+         | |- astep _ _ _ (view (setstack (_ <| threads := ?TH |> <| actors := _ ++ [?new] |>) _ ?st)) =>
+             rewrite (obs'_plain T s a ac _ _ _ Ea Est eq_refl);
+             unfold at_top; rewrite actors_setstack_lookup, decide_True by done; cbn [actors set];
+             rewrite lookup_app_l by (eapply lookup_lt_Some, Ea); rewrite Ea; cbv beta iota; cbn [fmap option_fmap option_map stack set];
+             apply A_spawn; apply (sim_spawn s a ac st new TH Ea HIv); [ rewrite Est; reflexivity | intros q'; rewrite Est; reflexivity | done ]
+         | _ => idtac end.
+  Qed.
 End Sim.
